@@ -18,7 +18,7 @@ def generate(rng, tier):
     cases = []
     thorough = tier == "thorough"
     specs = specs_pool(rng, 40 if thorough else 10)
-    for k in range(5000 if thorough else 700):
+    for k in range(5000 * TH if thorough else 700):
         sp, data, kind, _ = gen_stream(rng, specs, big=False, p_valid=0.5, p_mut=0.35, mid=0.15)
         if rng.random() < 0.15 and len(data) > 2:
             data = data[:rng.randrange(1, len(data))]
